@@ -78,6 +78,8 @@ class Opaque:
 class Obj:
     """An instance of a repository class (or an anonymous record)."""
 
+    _active = None     # the interpreter most recently at work (for protocol methods reached from library code)
+
     def __init__(self, cls=None, attrs=None, name="obj"):
         self.cls = cls
         self.attrs = dict(attrs or {})
@@ -410,6 +412,7 @@ class Interp:
 
     # ---- entry points -----------------------------------------------------
     def call(self, fi, self_obj, args=(), kwargs=None):
+        Obj._active = self
         kwargs = dict(kwargs or {})
         if self.depth >= self.max_depth:
             raise Undecided(f"inlining depth {self.max_depth} exceeded at {fi.qual}")
@@ -833,11 +836,27 @@ class Interp:
         raise Undecided(f"assignment target {type(target).__name__}")
 
     # ---- expressions ------------------------------------------------------
+    def dunder(self, v, name):
+        """the special method `name` an instance of a repository class has (own class or package bases), else None"""
+        if isinstance(v, (Obj, ListObj, DictObj)) and getattr(v, "cls", None) is not None:
+            for k in self.repo.mro(v.cls):
+                if name in k.methods:
+                    return k.methods[name]
+        return None
+
     def truth(self, v, node=None):
-        if isinstance(v, (bool, int, float, str, bytes, list, tuple, dict, type(None), set, USet)):
+        if isinstance(v, (bool, int, float, str, bytes, list, tuple, dict, type(None), set, USet)) and not isinstance(v, (ListObj, DictObj)):
             return bool(v)
-        if isinstance(v, Obj):
-            return True
+        if isinstance(v, (Obj, ListObj, DictObj)):
+            f = self.dunder(v, "__bool__")
+            if f is not None:
+                return self.truth(self.call(f, v, []), node)
+            f = self.dunder(v, "__len__")
+            if f is not None:
+                return self.call(f, v, []) != 0
+            if isinstance(v, Obj):
+                return True
+            return bool(v)
         try:
             return bool(v)
         except Undecided:
@@ -928,11 +947,29 @@ class Interp:
         if isinstance(base, (Obj, ListObj, DictObj)):
             if attr in base.attrs:
                 return base.attrs[attr]
+            if isinstance(base, Obj) and "__fields__" in base.attrs and attr in ("_replace", "_asdict", "_fields"):
+                flds = list(base.attrs["__fields__"])
+                if attr == "_fields":
+                    return tuple(flds)
+                if attr == "_asdict":
+                    return Native(lambda a, k, b=base: {f: b.attrs[f] for f in flds}, "_asdict")
+
+                def _replace(a, k, b=base):
+                    bad = [x for x in k if x not in flds]
+                    if bad:
+                        raise PyRaise(f"ValueError: Got unexpected field names: {bad}", node)
+                    o = Obj(b.cls, dict(b.attrs, **k), name=b.name)
+                    return o
+                return Native(_replace, "_replace")
             if base.cls is not None:
                 for k in self.repo.mro(base.cls):
                     if attr in k.methods:
                         fi = k.methods[attr]
                         if fi.is_property:
+                            if any("cached_property" in d for d in fi.decorators()):
+                                v_ = self.call(fi, base)
+                                base.attrs[attr] = v_       # computed once, then an instance attribute
+                                return v_
                             return self.call(fi, base)
                         if "classmethod" in fi.decorators():
                             return BoundMethod(ClassRef(base.cls), fi)
@@ -1390,6 +1427,36 @@ class Interp:
             return not self.compare(ast.Is(), l, r)
         if isinstance(l, Opaque) or isinstance(r, Opaque):
             raise Undecided("comparison with opaque value")
+        if isinstance(op, (ast.Eq, ast.NotEq)) and any(isinstance(x, Obj) and "__fields__" in x.attrs for x in (l, r)) \
+                and all(isinstance(x, tuple) or (isinstance(x, Obj) and "__fields__" in x.attrs) for x in (l, r)):
+            tl, tr = (x if isinstance(x, tuple) else x._tuple() for x in (l, r))    # a NamedTuple IS a tuple
+            return (tl == tr) if isinstance(op, ast.Eq) else (tl != tr)
+        if isinstance(op, (ast.Eq, ast.NotEq)):
+            for a_, b_ in ((l, r), (r, l)):
+                f = self.dunder(a_, "__ne__") if isinstance(op, ast.NotEq) else None
+                if f is not None:
+                    return self.call(f, a_, [b_])
+                f = self.dunder(a_, "__eq__")
+                if f is not None:
+                    res = self.call(f, a_, [b_])
+                    if isinstance(res, Builtin) and res.name == "NotImplemented":
+                        continue
+                    return res if isinstance(op, ast.Eq) else (not self.truth(res))
+        if isinstance(op, (ast.In, ast.NotIn)) and isinstance(r, (Obj, ListObj, DictObj)):
+            f = self.dunder(r, "__contains__")
+            if f is not None:
+                res = self.truth(self.call(f, r, [l]))
+                return res if isinstance(op, ast.In) else (not res)
+            f = self.dunder(r, "__iter__")
+            if f is not None:
+                from .pystd import lazy_iter
+                res = any(self.truth(self.compare(ast.Eq(), x, l)) for x in lazy_iter(self.call(f, r, [])))
+                return res if isinstance(op, ast.In) else (not res)
+        _ops = {ast.Lt: "__lt__", ast.LtE: "__le__", ast.Gt: "__gt__", ast.GtE: "__ge__"}
+        if type(op) in _ops:
+            f = self.dunder(l, _ops[type(op)])
+            if f is not None:
+                return self.call(f, l, [r])
         try:
             if isinstance(op, ast.Eq):
                 return l == r
@@ -1455,6 +1522,10 @@ class Interp:
             idx = slice(lo, hi, st)
         else:
             idx = self.eval(e.slice, env)
+        if isinstance(base, Obj) and "__fields__" not in base.attrs:
+            f = self.dunder(base, "__getitem__")
+            if f is not None:
+                return self.call(f, base, [idx])
         try:
             return base[idx]
         except (Undecided, PyRaise):
@@ -1477,6 +1548,11 @@ class Interp:
                 out += v.value
                 continue
             val = self.eval(v.value, env)
+            if isinstance(val, (Obj, ListObj, DictObj)) and getattr(val, "cls", None) is not None:
+                t_ = self.text_of(val, "repr" if v.conversion == ord("r") else "str")
+                if t_ is None:
+                    return Opaque("fstring")
+                val = t_
             if not isinstance(val, (int, str, float, bytes, bool, type(None), tuple, list)):
                 return Opaque("fstring")
             if v.conversion == ord("r"):
@@ -1493,6 +1569,16 @@ class Interp:
             except Exception as ex:
                 raise PyRaise(f"ValueError: format: {ex}")
         return out
+
+    def text_of(self, v, how="str"):
+        """str(v) / repr(v) of an instance of a repository class: its own __str__ / __repr__ (str falls back to repr);
+        None when the class defines neither (the default text holds an address)"""
+        for nm in (("__str__", "__repr__") if how == "str" else ("__repr__",)):
+            f = self.dunder(v, nm)
+            if f is not None:
+                r = self.call(f, v, [])
+                return r if isinstance(r, str) else None
+        return None
 
     def e_Await(self, e, env):
         return self.eval(e.value, env)
@@ -1811,6 +1897,23 @@ class Builtin:
                 raise PyRaise(f"ValueError: {e}")
         if n == "len" and args and hasattr(args[0], "length"):
             return args[0].length()
+        if n in ("len", "str", "repr", "bool", "list", "tuple", "sorted", "iter", "any", "all", "sum", "max", "min", "set", "frozenset", "enumerate", "zip", "map", "filter", "dict") and args \
+                and isinstance(args[0], Obj) and args[0].cls is not None and "__fields__" not in args[0].attrs:
+            o_ = args[0]
+            if n == "len":
+                f_ = interp.dunder(o_, "__len__")
+                if f_ is not None:
+                    return interp.call(f_, o_, [])
+            elif n in ("str", "repr"):
+                t_ = interp.text_of(o_, n)
+                return t_ if t_ is not None else Opaque(n)
+            elif n == "bool":
+                return interp.truth(o_, node)
+            else:
+                f_ = interp.dunder(o_, "__iter__")
+                if f_ is not None:
+                    from .pystd import lazy_iter
+                    return self(interp, [list(lazy_iter(interp.call(f_, o_, [])))] + list(args[1:]), kwargs, node)
         if n in ("max", "min", "len", "abs", "str", "bool", "list", "tuple", "dict", "bytes",
                  "sorted", "hex", "round"):
             if any(isinstance(a, Opaque) for a in args):
